@@ -107,6 +107,22 @@ def _build(src):
     raise ValueError(src)
 
 
+# accepted words whose runs need LONG epsilon paths in configuration space (deep stacks drained by epsilon pops)
+DEEP = [
+    # push an X per a, then guess the end, drain the stack by epsilon pops, accept on the bottom marker
+    ({"kind": "pda_trans", "Q": ["i", "p", "d", "f"], "S": "a", "G": "X$", "q0": "i", "F": ["f"],
+      "T": [["i", "ε", "ε", "p", "$"], ["p", "a", "ε", "p", "X"], ["p", "ε", "ε", "d", "ε"], ["d", "ε", "X", "d", "ε"],
+            ["d", "ε", "$", "f", "ε"]]}, ["a" * 7, "a" * 12, "a" * 16]),
+    # a^n b^n with n up to 8
+    ({"kind": "pda_trans", "Q": ["q1", "q2", "q3", "q4"], "S": "ab", "G": "0$", "q0": "q1", "F": ["q1", "q4"],
+      "T": [["q1", "ε", "ε", "q2", "$"], ["q2", "a", "ε", "q2", "0"], ["q2", "b", "0", "q3", "ε"],
+            ["q3", "b", "0", "q3", "ε"], ["q3", "ε", "$", "q4", "ε"]]}, ["a" * 6 + "b" * 6, "a" * 8 + "b" * 8, "a" * 8 + "b" * 7]),
+    # two symbols pushed per letter, popped one by one through a two-state epsilon loop
+    ({"kind": "pda_trans", "Q": ["s", "t", "u", "v"], "S": "a", "G": "XY", "q0": "s", "F": ["v"],
+      "T": [["s", "a", "ε", "t", "X"], ["t", "ε", "ε", "s", "Y"], ["s", "ε", "Y", "u", "ε"], ["u", "ε", "X", "s", "ε"],
+            ["s", "ε", "ε", "v", "ε"]]}, ["a" * 5, "a" * 9]),
+]
+
 SPECIAL = [
     # a^n b^n (Sipser)
     {"kind": "pda_trans", "Q": ["q1", "q2", "q3", "q4"], "S": "ab", "G": "0$", "q0": "q1", "F": ["q1", "q4"],
